@@ -221,7 +221,7 @@ def c18():
             expose=["_ZN12_GLOBAL__N_119readFeatureSettingsEPKhPN9graphite214FeatureSettingEm"], unit_flags={"FeatureMap": ["-fno-inline"]}) for n in (1, 2, 3)]
     return fs + feat_queries() + [Q("fref_alloc_lo", "C18_features.cpp", "vh_fref_alloc", {"BITS_LO": 0, "BITS_HI": 4096}, unwind=34),
             Q("fref_alloc_hi", "C18_features.cpp", "vh_fref_alloc", {"BITS_LO": 4096, "BITS_HI": 8192}, unwind=34),
-            ] + [Q(f"fmap_laws_m{a:x}_{b:x}", "C18_features.cpp", "vh_fmap_laws", {"MAX1": f"{a}u", "MAX2": f"{b}u"}, unwind=34, unwindset={"reserve": 4, "insert": 6, "_insert_default": 6})
+            ] + [Q(f"fmap_laws_m{a:x}_{b:x}", "C18_features.cpp", "vh_fmap_laws", {"MAX1": f"{a}u", "MAX2": f"{b}u"}, unwind=34, unwindset={"reserve": 4, "insert": 6, "_insert_default": 6}, tiers=("thorough",), timeout=1700)
                  for a, b in ((1, 1), (1, 3), (3, 1), (0xffff, 1), (0xffff, 0xffff), (0xffffffff, 1), (1, 0xffffffff), (0x7fff, 0x1ffff & 0xffff), (0xffffffff, 0xffffffff), (255, 0xffff))] + [
             Q("fmap_laws", "C18_features.cpp", "vh_fmap_laws", unwind=34, unwindset={"reserve": 4, "insert": 6, "_insert_default": 6}, tiers=("thorough",), timeout=1700)]
 
